@@ -317,7 +317,7 @@ def gen_telnet(rng):
 
 
 def gen(rng, tier):
-    n = 120 if tier == 'quick' else 2500
+    n = 120 if tier == 'quick' else 8000
     # a malformed op stream: both sides must answer bad-op
     yield ['recv 00', 'open 4', 'open 1', 'open 1', 'recv 0g', 'opt 9', 'mount 0 7 61', 'rmnode 0', 'frob', 'trecv 00', 'tconn', 'tconn',
            'tdisc x', 'rsend', 'winsz 70000 1', 'umount 3 61', 'recv']
